@@ -29,7 +29,7 @@ REQUIRED_FEATURES = ["bases:1", "bases:2", "base:variable-width", "base:fixed-wi
                      "history:output-path-reused", "bases:mixed-value-dtypes", "cli:maxres-is-a-ladder-member",
                      "set:no-derived-level", "cli:base-is-level-of-mcool", "cli:base-in-subgroup-with-root-decoy",
                      "bases:second-base-has-own-content", "set:non-derivable:below-every-base",
-                     "history:refused-request-onto-existing-mcool",
+                     "history:refused-request-onto-existing-mcool", "option:dtypes-empty-dict",
                      "bases:independent-2b-3b"]
 SHARD_TIMEOUT = {"quick": 1800, "thorough": 7200}
 
@@ -274,7 +274,11 @@ def api_case(ctx, shard, i, rng):
             old_res = [b * m for m in (3, 7, 11)]
             cooler.zoomify_cooler(base_uri, out, old_res, chunksize=10**6)
             c.feature("history:output-path-reused")
-        cooler.zoomify_cooler(base_uris if len(base_uris) > 1 else base_uris[0], out, res, chunksize=cs, nproc=nproc)
+        zkw = {}
+        if rng.random() < 0.35:
+            zkw["dtypes"] = {}           # "no overrides" spelled as an empty dict (what `cooler zoomify --field count` passes)
+            c.feature("option:dtypes-empty-dict")
+        cooler.zoomify_cooler(base_uris if len(base_uris) > 1 else base_uris[0], out, res, chunksize=cs, nproc=nproc, **zkw)
         want_res = sorted(set(res) | set(bases))
         if own_base2:
             c.feature("bases:second-base-has-own-content")
